@@ -295,7 +295,8 @@ inline PointSet enumerate_points(const Eval& arg, unsigned wmask, int w) {
       }
     }
     double tot = 1; for (size_t k = 0; k < cand.size(); ++k) tot *= (double)cand[k].size();
-    if (tot > POINT_CAP) { ps.skipped = true; return ps; }
+    if (tot > 4000000.0)   // candidates before the membership filter; accepted points are capped by POINT_CAP below
+      { ps.skipped = true; return ps; }
     // cartesian product of the candidates
     std::vector<size_t> idx(wv.size(), 0);
     std::vector<Q> x(n, Q(0));
